@@ -126,7 +126,7 @@ PROPS = {
         ],
         "search_ops": ["compact_cover", "compact_total"],
         "level_text": "Unbounded proof (Verus/Z3) on the real compact(), fixed point and scan loops closed by invariants over an abstract "
-                      "covered-set: for every list of valid cells the result is Ok, consists of canonical IDs no finer than the inputs, and "
+                      "covered-set: Err iff some input is not a cell; for every list of cells (non-canonical aliases included) the result is Ok, consists of canonical IDs no finer than the inputs, and "
                       "covers exactly the same cells at every resolution at least as fine as all inputs (each merge is shown to replace "
                       "exactly the complete set of children of the parent it inserts); the result has no duplicates and is in scan "
                       "order; the working list after dedup+sort is the unique scan-ordered enumeration of the input set.",
@@ -408,7 +408,7 @@ TRUSTED = {
     "shape": None,
     "compact": ["external_body err_msg", "external_body get_origins", "assume_specification usize::pow",
                 "assume_specification u64::pow", "assume_specification u64::saturating_pow",
-                "external_body U64Set", "external_body std_collect_set", "external_body std_set_into_vec",
+                "external_body U64Set", "external_body with_capacity", "external_body insert", "external_body std_set_into_vec",
                 "external_body std_sort_by_scan_key"],
 }
 
